@@ -16,6 +16,7 @@ EXPLANATION = ("Necessary shape conditions decided on all paths of the six Multi
                "slot is destroyed before it can be reused (shared with C13 R13.1) and the per-listener rings satisfy the ring shape conditions (shared with C02 R02.1-R02.3). (R03.8) Multi::send / send_with / send_derived forward to the channel unchanged.")
 EXPLANATION += ' R03.1 also checks the polarity of the end-of-list test (the fan-out is left on the side where the entry IS the u32::MAX sentinel, publications happen on the live side); (R03.9) the fan-out list is rebuilt exactly once after every id take / release (shared with C10 R10.2: no in-place truncate / append fast path); (R03.10) the setters of send_with / send_with_async are consumed on every path (shared with C01 R01.9).'
 EXPLANATION += " R03.3 also requires every answer of a Multi consume(stream_id) to come after asking the listener's queue, once; R03.4 also imports C14's R14.1 (the pre-load ADDS to the count by one atomic RMW); R03.9 also carries C10's R10.7 (cursor discipline of the live-list rebuild)."
+EXPLANATION += " R03.3 also requires the listener ids a fan-out publishes for to be read from used_streams() on every path (no special-cased list for some MAX_STREAMS); R03.9 also carries C10's R10.6 (the vacant snapshot is sorted on every path)."
 ASSUMPTIONS = ["per-listener ring correctness under concurrent producers is the C01/C02 question and is not decided", "listener churn during sends is C17",
                "arc crossbeam ignores try_send's answer when the sampled length is <= 2: cannot fail for sequences shorter than the buffer (the property's quantifier)"]
 
